@@ -172,7 +172,8 @@ func checkLoneScan(p *Program, r *Result, fn *ssa.Function) {
 				switch {
 				case s == `Field(Elem(P1, (RangeIdx#1 + 1)).Type) == "scrypt"`:
 					typ = true
-				case s == "len(P1) != 1":
+				case s == "len(P1) != 1" || s == "len(P1) > 1" || s == "len(P1) >= 2":
+					// (with no stanza at all the loop does not run: > 1 and != 1 refuse the same headers)
 					ln = true
 				case s == "(RangeIdx#1 + 1) <= (len(P1) + -1)" || s == "(RangeIdx#1 + 1) < len(P1)":
 				default:
